@@ -6,11 +6,12 @@ from lib.rec import Rec
 
 LEVEL = "exploration"
 RULE = ("G4 searches (no '>') over G5 universes on FindInList, FindInPaths(local), FindInPaths(server) and FindInAll; five rewrite rules give "
-        "(search, derived searches) pairs whose REAL results are compared as sets: (1) a ',' list == union of its alternatives, (2) an alias "
-        "== union of its member extensions, (3) '/**' == union over 0..n '/*' levels restricted to leaf types, (4) appending k=v on a key "
-        "that every searched type has (and that the search leaves as '*') == the unfiltered results whose field k is v, (5) a literal for a "
-        "'*' == the subset having that value; plus: no duplicates, every result typed and result.match(search). Non-trivial = distinct "
-        "(universe, finder, rule, search) whose left-hand result is non-empty.")
+        "(search, derived searches) pairs whose REAL results are compared as sets: (1) a ',' list == union of its alternatives, (2) an alias == "
+        "union of its member extensions, (3) '/**' == union over 0..n '/*' levels restricted to leaf types, (4) appending k=v on a key that "
+        "every searched type has (and that the search leaves as '*') == the unfiltered results whose field k is v, (5) a literal for a '*' == "
+        "the subset having that value; each universe also gets '*' at every combination of positions of the 2-4 shallow levels (FindInAll), and "
+        'every third universe names beyond the BMP; plus: no duplicates, every result typed and result.match(search). Non-trivial = distinct '
+        '(universe, finder, rule, search) whose left-hand result is non-empty.')
 ASSUME = ["rules 4 and 5 are not judged on FindInAll for searches served by a constants Finder (a concrete constant-backed level is answered "
           "without an existence check of its parent; the statement is silent)",
           "rule 4 is applied only where the search has '*' at the filtered key in every unfolded form (a filter overlays, it does not intersect)",
